@@ -32,6 +32,9 @@ SCENARIOS = [
     {".gitignore": "# real comment\ndraft.md # wip\nnotes #2.md\n\\#x.md\n*.md\n!keep.md # not a negation of keep.md\n!x#1.md\n   \nz.md   \n",
      "draft.md": "d", "notes #2.md": "n", "#x.md": "h", "keep.md": "k", "x#1.md": "x", "z.md": "z", "sub/draft.md": "s"},
     {".gitignore": "a.md\n", "s/.gitignore": "# c\n!a.md\nb.md #\n", "s/a.md": "a", "s/b.md": "b", "s/b.md #": "odd", "a.md": "top"},
+    # leading blanks belong to the pattern (git does not strip them); a nested file of negations only is a rule file
+    {".gitignore": "    api-x.md\n\tt.md\n  !keep.md\nkeep.md\ngen/\n", "api-x.md": "a", "t.md": "t", "keep.md": "k", "    api-x.md": "odd",
+     "gen/.gitignore": "!*.md\n", "gen/g.md": "g", "sub/.gitignore": "!keep.md\n", "sub/keep.md": "k2", "sub/api-x.md": "s"},
 ]
 
 
@@ -87,13 +90,79 @@ def bounded(tier, seed):
             evals += 1
             if off != allmd:
                 viol.append({"clause": "disabled_no_influence", "input": inp, "got": off, "want": allmd})
+            if i < 0 or i % 10 == 0:
+                # the same listing through the command line, started from inside the tree, from a directory outside any
+                # repository and from the file-system root: where the command is started has no influence
+                from flowmark import cli as CLI
+                for cwd in (root, base, "/"):
+                    with in_dir(cwd), captured() as (o, e):
+                        try:
+                            CLI.main(["--list-files", "--exclude", "zzz-none/", root])
+                        except SystemExit:
+                            pass
+                    listed = sorted(os.path.relpath(l, os.path.realpath(root)) for l in o.getvalue().splitlines() if l.strip())
+                    evals += 1
+                    if listed != vis:
+                        viol.append({"clause": "cli_listing_agrees_with_git", "input": dict(inp, cwd={root: "<tree>", base: "<parent>", "/": "/"}[cwd]),
+                                     "got": sorted(set(listed) - set(vis)), "want": sorted(set(vis) - set(listed))})
+                # a later resolver in the same process sees the .gitignore files as they are THEN (no state survives a resolver)
+                changed = False
+                for rel in sorted(gi):
+                    os.remove(os.path.join(root, rel))
+                    changed = True
+                with open(os.path.join(root, ".gitignore"), "w") as fh:
+                    fh.write("b.md\n")
+                vis2 = [p for p in fsgen.git_visible(root) if p.endswith(".md")]
+                got3 = sorted(os.path.relpath(str(p), os.path.realpath(root))
+                              for p in FileResolver(FileResolverConfig(exclude=[])).resolve([root]))
+                evals += 1
+                if got3 != vis2:
+                    viol.append({"clause": "agrees_with_git_after_edit", "input": dict(inp, then={".gitignore": "b.md\n", "removed": sorted(gi)}),
+                                 "got": sorted(set(got3) - set(vis2)), "want": sorted(set(vis2) - set(got3))})
             if len(samples) < 2:
                 samples.append(inp)
         finally:
             shutil.rmtree(base, ignore_errors=True)
     return {"evaluations": evals, "distinct_nontrivial": len(distinct), "violations": viol, "samples": samples,
-            "rule": "12 hand-written scenarios (incl. comment / '#' / escape handling of ignore lines) (ignored directories with later / nested negations, anchored and multi-segment patterns in "
+            "rule": "(also, on the scenarios and every 10th tree: `--list-files` through cli.main started inside the tree, in its parent (no repository) and in / gives the same listing; after the .gitignore files are replaced a NEW resolver in the same process agrees with git again) 13 hand-written scenarios (incl. comment / '#' / escape / leading-blank handling of ignore lines, negation-only nested files) (ignored directories with later / nested negations, anchored and multi-segment patterns in "
                     "nested files, re-included directories) + seeded trees with .gitignore files (1-3 lines each from an 18-line pool) at any level: the .md files returned by a "
                     "traversal (no default excludes) equal the .md files of `git ls-files -co --exclude-standard`; the same for two overlapping traversal roots (tree and one sub-directory, both orders: each judged from its own root); with "
                     "respect_gitignore=False every .md file is returned; distinct = distinct git results",
             "exhaustive": False, "bound": "%d trees" % (n + len(SCENARIOS))}
+
+
+def static_obligations(tier):
+    """ST obligations on the resolver's state: the caches of compiled ignore files live in the instance (created in
+    __init__), FileResolver has no class-level mutable attribute and the file_resolver modules no module-level mutable
+    container, so no ignore-file content read for one resolver can reach a later one (gitignore cache anchor of C18)."""
+    import ast
+    from vfcore import static
+    mods = static.package_modules(include=("flowmark.file_resolver.resolver", "flowmark.file_resolver.gitignore"))
+    recs = []
+    tree = mods["flowmark.file_resolver.resolver"]
+    cls = next(n for n in ast.walk(tree) if isinstance(n, ast.ClassDef) and n.name == "FileResolver")
+    mutable = (ast.Dict, ast.List, ast.Set, ast.ListComp, ast.DictComp, ast.SetComp, ast.Call)
+    class_level = [ast.unparse(t) for st in cls.body if isinstance(st, (ast.Assign, ast.AnnAssign)) and getattr(st, "value", None) is not None
+                   and isinstance(st.value, mutable) for t in (st.targets if isinstance(st, ast.Assign) else [st.target])]
+    recs.append({"oid": "state/file_resolver.resolver:FileResolver/no_class_level_mutable_state",
+                 "status": "discharged" if not class_level else "refuted",
+                 "src": "FileResolver has no class-level mutable attribute (state shared by all resolvers)", "detail": repr(class_level)})
+    init = next(m for m in cls.body if isinstance(m, ast.FunctionDef) and m.name == "__init__")
+    created = {t.attr for st in ast.walk(init) if isinstance(st, (ast.Assign, ast.AnnAssign))
+               for t in (st.targets if isinstance(st, ast.Assign) else [st.target])
+               if isinstance(t, ast.Attribute) and isinstance(t.value, ast.Name) and t.value.id == "self"
+               and isinstance(st.value, ast.Dict) and not st.value.keys}
+    used = {x.attr for x in ast.walk(cls) if isinstance(x, ast.Attribute) and isinstance(x.value, ast.Name) and x.value.id == "self"
+            and x.attr.endswith("_cache")}
+    recs.append({"oid": "state/file_resolver.resolver:FileResolver.__init__/caches_start_empty_per_instance",
+                 "status": "discharged" if used and used <= created else "refuted",
+                 "src": "every self.*_cache is created as an empty dict in __init__", "detail": "used %s; created %s" % (sorted(used), sorted(created))})
+    for name, tree in sorted(mods.items()):
+        glob = [ast.unparse(t) for st in tree.body if isinstance(st, (ast.Assign, ast.AnnAssign)) and getattr(st, "value", None) is not None
+                and isinstance(st.value, (ast.Dict, ast.List, ast.Set, ast.ListComp, ast.DictComp, ast.SetComp))
+                for t in (st.targets if isinstance(st, ast.Assign) else [st.target])]
+        glob = [g for g in glob if g != "__all__"]
+        recs.append({"oid": "state/%s/no_module_level_mutable_container" % name.replace("flowmark.", ""),
+                     "status": "discharged" if not glob else "refuted",
+                     "src": "no module-level dict / list / set (a process-wide cache) in %s" % name, "detail": repr(glob)})
+    return recs
